@@ -556,6 +556,8 @@ def design_matrices(formula, data, na_action="drop", env=0, extra_namespace=None
                 data.shape[0],
             )
             data = data[~incomplete_rows]
+            if data.shape[0] == 0:
+                raise ValueError("'data' does not contain any complete observation.")
         else:
             raise ValueError(f"'data' contains {incomplete_rows_n} incomplete rows.")
 
